@@ -120,7 +120,11 @@ def perform(d: Doc, call: tuple[str, int], txtids: dict, prev_auto: Optional[int
     return ev
 
 
-def record(text: str, default: bool, plan: list[tuple[str, int]], txtids: dict, restore: bool = True) -> Optional[dict]:
+def record(text: str, default: bool, plan: list[tuple[str, int]], txtids: dict, restore: bool = True,
+           lf: Optional[int] = None) -> Optional[dict]:
+    if lf is not None:
+        from checks import store_replay
+        store_replay.set_load_factor(lf)      # the parse below lays the store out in blocks of this size
     try:
         d = Doc(text, default)
     except Exception:  # noqa: BLE001
@@ -193,6 +197,12 @@ def pingpong_plans(text: str, default: bool, d0: Doc, calls: list) -> list:
     return plans[:40]
 
 
+# block sizes of the token store under the documents: every document meets every size with some of its plans, so
+# that the placeholder moves of the attribution calls land on, before and behind block boundaries and make blocks
+# split and merge (1000 = the shipped size: one block)
+LFS = [2, 3, 1000, 4, 5, 7]
+
+
 def _chunk(arg: tuple) -> list:
     seed, flavors, docs, depth2 = arg
     rng = random.Random(seed)
@@ -211,9 +221,15 @@ def _chunk(arg: tuple) -> list:
                 if not d0.comments:
                     continue
                 calls = calls_for(d0)
+                # block sizes that leave an undersized block in this very document (the store halves a remainder of
+                # L+1 tokens into L/2 and L/2+1: the first half is at the merge threshold, as 500 of 1000 is in a
+                # ledger of 1000k+1 tokens), so that a placeholder moved inside it makes the store merge blocks
+                ntok = len(d0.file.token_store)
+                special = [L for L in range(4, ntok, 2) if (ntok - 1) % L == 0]
+                lfs = LFS + special[:2] + special[-1:]
                 pp = pingpong_plans(text, default, d0, calls)
-                for plan in pp:
-                    tr = record(text, default, plan, txtids, restore=False)
+                for pi, plan in enumerate(pp):
+                    tr = record(text, default, plan, txtids, restore=False, lf=lfs[(dk + pi) % len(lfs)])
                     if tr is not None:
                         traces.append(tr)
                 if depth2 < 0:
@@ -223,8 +239,8 @@ def _chunk(arg: tuple) -> list:
                     for _ in range(depth2):
                         plans.append([rng.choice(calls) for _ in range(rng.choice([2, 3, 4]))])
                 # parse(default) must equal parse(off) followed by auto-claim: compared in Python below
-                for plan in plans:
-                    tr = record(text, default, plan, txtids)
+                for pi, plan in enumerate(plans):
+                    tr = record(text, default, plan, txtids, lf=lfs[(dk + pi) % len(lfs)])
                     if tr is not None:
                         traces.append(tr)
     store_replay.set_load_factor(1000)
